@@ -32,6 +32,7 @@ func corpusSpecs() []*Spec {
 		mk("k-unsub-while-sending", true, srv("next", 0), st("reader"), st("reader"), st("reader"), Action{Op: "call", Kind: "Unsubscribe", T: "unsub0", Sub: 0}, st("unsub0"), st("reader")),
 		mk("k-close-while-reader-in-handleErr", false, Action{Op: "lost"}, st("reader"), st("reader"), st("reader"), st("reader"), Action{Op: "call", Kind: "Close", T: "close"}, st("close"), st("close"), st("close")),
 		mk("k-stale-lookup-then-unsub", true, srv("next", 0), st("reader"), st("reader"), Action{Op: "call", Kind: "Unsubscribe", T: "unsub0", Sub: 0}, st("unsub0"), st("reader"), st("reader")),
+		mk("k-unsub-after-close", false, Action{Op: "call", Kind: "Close", T: "close"}, st("close"), st("close"), st("close"), Action{Op: "call", Kind: "Unsubscribe", T: "unsub0", Sub: 0}, st("unsub0")),
 		{ID: "k-close-write-fails", FailAfterClose: true, Actions: append(append(append([]Action{}, start...), sub0...), Action{Op: "call", Kind: "Close", T: "close"}, st("close"), st("close"), st("close"))},
 	}
 }
